@@ -6,6 +6,7 @@ TInit == l = 1
 Failing(c, o, exp) ==
     IF ~o.protos_unfitted THEN "PrototypesStayUnfitted"
     ELSE IF ~o.independent THEN "IndependentlyFittedClones"
+    ELSE IF ~o.alpha_ok THEN "MuxBehavesLikeSelectedMember"
     ELSE LET bad == { i \in DOMAIN CClauseNames : ~CClauseHolds(i, c, o) } IN
     IF bad # {} THEN CClauseNames[CHOOSE i \in bad : \A j \in bad : i <= j]
     ELSE IF o.events # exp.events THEN "ComponentCallsDiffer"
